@@ -810,6 +810,11 @@ def _blacklist_model(r, fi, name, with_siblings, bl, loop, prov, where, idx_=Non
         env['var_samples'] = [sample]
         env['sibling_formulas'] = {'sibling_1': 'a+1', 'sibling_2': 'b'}
         want |= {'sibling_1', 'sibling_2'}
+        # sibling_1 is referred to by the author's comparer parameters, sibling_2 only by a DependentSampler of sample_from:
+        # the names used in the author's expressions are therefore {x, sibling_1}
+        for c in walk_own(fi.node):
+            if isinstance(c, ast.Call) and nf.callee_name(c) == 'get_used_vars':
+                env[unparse(c)] = {'x', 'sibling_1'}
     # names the black-list is computed from
     needed, todo = set(), [bl]
     while todo:
@@ -817,11 +822,16 @@ def _blacklist_model(r, fi, name, with_siblings, bl, loop, prov, where, idx_=Non
         if n in needed:
             continue
         needed.add(n)
+        if n in env:
+            continue            # given by the universe: not recomputed, its own inputs are irrelevant
         for v in prov.defs.get(n, []):
+            if unparse(v) in env:
+                continue        # an opaque call whose symbolic value the universe provides
             for x in ast.walk(v):
                 if isinstance(x, ast.Name) and isinstance(x.ctx, ast.Load):
                     todo.append(x.id)
     needed -= set(fi.params)
+    needed -= {k for k in env if k.isidentifier()}       # names given by the universe are not recomputed
 
     def touches(st):
         for n in ast.walk(st):
@@ -838,7 +848,19 @@ def _blacklist_model(r, fi, name, with_siblings, bl, loop, prov, where, idx_=Non
         if touches(st):
             pre.append(st)
     try:
-        mev.run([fl.inline_expr_helpers(idx_, fi, st) for st in pre] if idx_ is not None else pre, env)
+        for st in ([fl.inline_expr_helpers(idx_, fi, st) for st in pre] if idx_ is not None else pre):
+            try:
+                mev.run([st], env)
+            except mev.Unsupported:
+                # what the DependentSamplers of sample_from depend on is, in this universe, exactly {sibling_2}
+                if isinstance(st, ast.Assign) and len(st.targets) == 1 and isinstance(st.targets[0], ast.Name) and with_siblings:
+                    if any(isinstance(n, ast.Constant) and n.value == 'depends' for n in ast.walk(st.value)):
+                        env[st.targets[0].id] = {'sibling_2'}
+                        continue
+                    if lib.mentions_config(st.value, 'sample_from'):
+                        env[st.targets[0].id] = []
+                        continue
+                raise
         got = env.get(bl)
         if not isinstance(got, (list, set, tuple)):
             raise mev.Unsupported('black-list is not a list')
@@ -853,8 +875,13 @@ def _blacklist_model(r, fi, name, with_siblings, bl, loop, prov, where, idx_=Non
         iv = [m for m in missing if not m.startswith('sibling')]
         parts = []
         if sib:
-            parts.append('sibling name(s) %s are not black-listed although siblings are always part of the samples: the student can refer '
-                         "to another input box (e.g. add 0*sibling_1) and is not rejected" % sib)
+            if sib == ['sibling_2']:
+                parts.append("the sibling that only a DependentSampler depends on (sibling_2: present in sibling_formulas and in the samples, "
+                             "but not among the names used in the comparer parameters) is not black-listed: the student can refer to that "
+                             "input box (e.g. add 0*sibling_2) and is not rejected; the black-list must cover every key of sibling_formulas")
+            else:
+                parts.append('sibling name(s) %s are not black-listed although siblings are always part of the samples: the student can '
+                             "refer to another input box (e.g. add 0*sibling_1) and is not rejected" % sib)
         if iv:
             kinds = {'iv_variable': 'a configured variable', 'iv_constant': 'a constant',
                      'iv_numbered_{0}': 'an INSTANCE of a numbered variable (such names exist only in the sampled scope, not in '
@@ -1025,9 +1052,28 @@ def d4_scrub(ctx, idx):
                     r.undecided(name + ': deletion', 'black-list expression not recognised: %s' % short(bl), where)
                 continue
             r.ok(name + ': deletion', 'for %s in %s: del %s[%s]' % (kv, bl.id, vscope, kv), where)
-            # (i) the black-list content
-            prov = fl.Prov(fi.node)
-            flows = [fl.inline_expr_helpers(idx, fi, e) for e in _closure_exprs(prov, bl.id)]
+            # (i) the black-list content -- built here, or in the caller when the list arrives as a parameter
+            bfi, bname, bstop, bsib = fi, bl.id, loop, 'sibling_formulas'
+            if bl.id in fi.params:
+                callers = [(f, c) for f in idx.package_funcs() for c in lib.calls_named(f.node, 'gen_evaluations')
+                           if f.cls is not None and f.cls.qualname == q and isinstance(c.func, ast.Attribute)]
+                arg = None
+                if len(callers) == 1:
+                    f2, c2 = callers[0]
+                    ps = fi.params[1:]
+                    amap = dict(zip(ps, c2.args))
+                    amap.update({k.arg: k.value for k in c2.keywords if k.arg})
+                    arg = amap.get(bl.id)
+                if arg is None or not isinstance(arg, ast.Name):
+                    r.undecided(name + ': black-list [content]', 'the black-list is the parameter `%s`; its construction in the caller could '
+                                'not be located' % bl.id, lib.loc(fi, dloop))
+                    continue
+                top = enclosing_stmt(c2)
+                while top is not None and not any(top is s_ for s_ in f2.node.body):
+                    top = fl.parent(top)
+                bfi, bname, bstop = f2, arg.id, top
+            prov = fl.Prov(bfi.node)
+            flows = [fl.inline_expr_helpers(idx, bfi, e) for e in _closure_exprs(prov, bname)]
             has_instr = any(lib.mentions_config(e, 'instructor_vars') for e in flows)
             if has_instr:
                 r.ok(name + ': black-list [instructor_vars]', "built from config['instructor_vars']", lib.loc(fi, dloop))
@@ -1043,7 +1089,7 @@ def d4_scrub(ctx, idx):
                     fl.absent(r, idx, name + ': black-list [siblings]',
                               'the sibling variable names no longer flow into the black-list `%s`: a student can refer to sibling_N, i.e. '
                               'to another input box, in this answer' % bl.id, lib.loc(fi, dloop))
-            _blacklist_model(r, fi, name, q == FGC, bl.id, loop, prov, lib.loc(fi, dloop), idx)
+            _blacklist_model(r, bfi, name, q == FGC, bname, bstop, prov, lib.loc(fi, dloop), idx)
             # the black-list is complete before the sampling loop starts
             fills = [n for n in walk_own(fi.node) if isinstance(n, (ast.Call, ast.AugAssign, ast.Assign)) and (
                 (isinstance(n, ast.Call) and isinstance(n.func, ast.Attribute) and n.func.attr in ('append', 'extend')
@@ -1378,6 +1424,7 @@ MUTANTS = [
            "            if var in var_samples[1]:\n                var_blacklist.append(var)\n\n        for i in range(self.config['samples']):\n            # Update the functions and variables listings with this sample\n            funclist.update(func_samples[i])\n            varlist.update(var_samples[i])\n\n            # Evaluate sums.", 'D4'),
     Mutant('seeded-blacklist-membership-in-configured-names', IG, "        var_blacklist = []\n        for var in self.config['instructor_vars']:\n            if var in var_samples[0]:\n                var_blacklist.append(var)\n\n        for i in range(self.config['samples']):\n            # Update the functions and variables listings with this sample\n            funclist.update(func_samples[i])\n            varlist.update(var_samples[i])\n\n            # Evaluate sums.",
            "        defined = set(self.config['variables']).union(self.constants)\n        var_blacklist = [var for var in self.config['instructor_vars'] if var in defined]\n\n        for i in range(self.config['samples']):\n            # Update the functions and variables listings with this sample\n            funclist.update(func_samples[i])\n            varlist.update(var_samples[i])\n\n            # Evaluate sums.", 'D4'),
+    Mutant('seeded-hidden-vars-from-param-siblings-only', FG, '    def gen_evaluations(self, comparer_params, student_input, sibling_formulas,\n                        var_samples, func_samples):\n        """\n        Evaluate the comparer parameters and student inputs for the given samples.\n\n        Returns:\n            A tuple (list, list, set). The first two lists are comparer_params_evals\n            and student_evals. These have length equal to number of samples specified\n            in config. The set is a record of mathematical functions used in the\n            student\'s input.\n        """\n        funclist = self.functions.copy()\n        varlist = {}\n\n        comparer_params_evals = []\n        student_evals = []\n\n        # Create a list of instructor and sibling variables to remove from student evaluation\n        sibling_vars = [key for key in sibling_formulas]\n        var_blacklist = []\n        for var in self.config[\'instructor_vars\']:\n            if var in var_samples[0]:\n                var_blacklist.append(var)\n        var_blacklist += sibling_vars\n\n        for i in range(self.config[\'samples\']):\n            # Update the functions and variables listings with this sample\n            funclist.update(func_samples[i])\n            varlist.update(var_samples[i])\n\n            def scoped_eval(expression,\n                            variables=varlist,\n                            functions=funclist,\n                            suffixes=self.suffixes,\n                            max_array_dim=self.config[\'max_array_dim\']):\n                return evaluator(expression, variables, functions, suffixes, max_array_dim,\n                                 allow_inf=self.config[\'allow_inf\'])\n\n            # Compute expressions\n            comparer_params_eval = self.eval_and_validate_comparer_params(scoped_eval, comparer_params)\n            comparer_params_evals.append(comparer_params_eval)\n\n            # Before performing student evaluation, scrub the sibling and instructor\n            # variables so that students can\'t use them\n            for key in var_blacklist:\n                del varlist[key]\n\n            student_eval, meta = scoped_eval(student_input)\n            student_evals.append(student_eval)\n\n            if self.config[\'debug\']:\n                # Put the siblings and instructor variables back in for the debug output\n                varlist.update(var_samples[i])\n                self.log_eval_info(i, varlist, funclist,\n                                   comparer_params_eval=comparer_params_eval,\n                                   student_eval=student_eval)\n\n        return comparer_params_evals, student_evals, meta.functions_used\n\n    def raw_check(self, answer, student_input, **kwargs):\n        """Perform the numerical check of student_input vs answer"""\n\n        # Extract sibling formulas to allow for sampling\n        siblings = kwargs.get(\'siblings\', None)\n        # Find sibling variables used in comparer parameters\n        comparer_params = answer[\'expect\'][\'comparer_params\']\n        required_siblings = self.get_used_vars(comparer_params)\n        # Add in any sibling variables used in DependentSamplers\n        samplers = [self.config[\'sample_from\'][x]\n                    for x in self.config[\'sample_from\']\n                    if isinstance(self.config[\'sample_from\'][x], DependentSampler)]\n        sampler_vars = sum((x.config[\'depends\'] for x in samplers), [])\n        required_siblings = list(set(required_siblings).union(set(sampler_vars)))\n        # required_siblings might include some extra variable names, but no matter\n        sibling_formulas = self.get_sibling_formulas(siblings, required_siblings)\n\n        # Generate samples, using student input, sibling formulas and any comparer\n        # parameters (including answers) as the list of expressions to check\n        var_samples, func_samples = self.gen_var_and_func_samples(student_input,\n                                                                  sibling_formulas,\n                                                                  comparer_params)\n\n        (comparer_params_evals,\n         student_evals,\n         functions_used) = self.gen_evaluations(comparer_params, student_input,\n                                                sibling_formulas, var_samples, func_samples)\n\n', '    def get_sampler_dependencies(self):\n        """\n        Returns the set of names that the DependentSamplers in sample_from depend on.\n        These can include sibling variables.\n        """\n        samplers = [sampler for sampler in self.config[\'sample_from\'].values()\n                    if isinstance(sampler, DependentSampler)]\n        return set().union(*[sampler.config[\'depends\'] for sampler in samplers])\n\n    def get_hidden_vars(self, sample, sibling_vars):\n        """\n        Returns the list of names in a sample that students may not use: instructor\n        variables and sibling variables. These are scrubbed from the scope before\n        the student\'s input is evaluated.\n\n        Arguments:\n            sample (dict): a variable sample, as produced by gen_var_and_func_samples\n            sibling_vars: the names of the sibling variables that may have been\n                sampled. Names that aren\'t in the sample are ignored, as is the\n                case for instructor_vars (which is not validated either).\n        """\n        candidates = self.config[\'instructor_vars\'] + sorted(sibling_vars)\n        return [var for var in candidates if var in sample]\n\n    def gen_evaluations(self, comparer_params, student_input, hidden_vars,\n                        var_samples, func_samples):\n        """\n        Evaluate the comparer parameters and student inputs for the given samples.\n        The names in hidden_vars are available to the comparer parameters, but not\n        to the student input.\n\n        Returns:\n            A tuple (list, list, set). The first two lists are comparer_params_evals\n            and student_evals. These have length equal to number of samples specified\n            in config. The set is a record of mathematical functions used in the\n            student\'s input.\n        """\n        funclist = self.functions.copy()\n        varlist = {}\n\n        comparer_params_evals = []\n        student_evals = []\n\n        for i in range(self.config[\'samples\']):\n            # Update the functions and variables listings with this sample\n            funclist.update(func_samples[i])\n            varlist.update(var_samples[i])\n\n            def scoped_eval(expression,\n                            variables=varlist,\n                            functions=funclist,\n                            suffixes=self.suffixes,\n                            max_array_dim=self.config[\'max_array_dim\']):\n                return evaluator(expression, variables, functions, suffixes, max_array_dim,\n                                 allow_inf=self.config[\'allow_inf\'])\n\n            # Compute expressions\n            comparer_params_eval = self.eval_and_validate_comparer_params(scoped_eval, comparer_params)\n            comparer_params_evals.append(comparer_params_eval)\n\n            # Before performing student evaluation, scrub the sibling and instructor\n            # variables so that students can\'t use them\n            for key in hidden_vars:\n                del varlist[key]\n\n            student_eval, meta = scoped_eval(student_input)\n            student_evals.append(student_eval)\n\n            if self.config[\'debug\']:\n                # Put the siblings and instructor variables back in for the debug output\n                varlist.update(var_samples[i])\n                self.log_eval_info(i, varlist, funclist,\n                                   comparer_params_eval=comparer_params_eval,\n                                   student_eval=student_eval)\n\n        return comparer_params_evals, student_evals, meta.functions_used\n\n    def raw_check(self, answer, student_input, **kwargs):\n        """Perform the numerical check of student_input vs answer"""\n\n        # Extract sibling formulas to allow for sampling\n        siblings = kwargs.get(\'siblings\', None)\n        # Find sibling variables used in comparer parameters\n        comparer_params = answer[\'expect\'][\'comparer_params\']\n        param_siblings = self.get_used_vars(comparer_params)\n        # Add in any sibling variables used in DependentSamplers\n        required_siblings = param_siblings.union(self.get_sampler_dependencies())\n        # Both sets might include some extra variable names, but no matter\n        sibling_formulas = self.get_sibling_formulas(siblings, required_siblings)\n\n        # Generate samples, using student input, sibling formulas and any comparer\n        # parameters (including answers) as the list of expressions to check\n        var_samples, func_samples = self.gen_var_and_func_samples(student_input,\n                                                                  sibling_formulas,\n                                                                  comparer_params)\n\n        # Instructor and sibling variables are only for the comparer parameters\n        sibling_vars = [var for var in param_siblings if var in sibling_formulas]\n        hidden_vars = self.get_hidden_vars(var_samples[0], sibling_vars)\n\n        (comparer_params_evals,\n         student_evals,\n         functions_used) = self.gen_evaluations(comparer_params, student_input,\n                                                hidden_vars, var_samples, func_samples)\n\n', 'D4'),
     Mutant('only-first-sibling-blacklisted', FG, "        var_blacklist += sibling_vars\n", "        var_blacklist += sibling_vars[:1]\n", 'D4'),
     # D5
     Mutant('check-scope-skipped', EXPR, "        self.check_scope(variables, functions, suffixes)\n\n        # metadata_dict", "        # metadata_dict", 'D5'),
@@ -1424,6 +1471,7 @@ BENIGN = [
     Benign('bad-vars-set-difference', EXPR, "bad_vars = set(var for var in self.variables_used if var not in variables)", "bad_vars = set(self.variables_used).difference(variables)"),
     Benign('required-guard-clause-continue', MH, "        if func not in used_funcs:\n            msg = \"Invalid Input: Answer must contain the function {}\"\n            raise InvalidInput(msg.format(func))\n",
            "        if func in used_funcs:\n            continue\n        msg = \"Invalid Input: Answer must contain the function {}\"\n        raise InvalidInput(msg.format(func))\n"),
+    Benign('hidden-vars-computed-in-raw-check', FG, '    def gen_evaluations(self, comparer_params, student_input, sibling_formulas,\n                        var_samples, func_samples):\n        """\n        Evaluate the comparer parameters and student inputs for the given samples.\n\n        Returns:\n            A tuple (list, list, set). The first two lists are comparer_params_evals\n            and student_evals. These have length equal to number of samples specified\n            in config. The set is a record of mathematical functions used in the\n            student\'s input.\n        """\n        funclist = self.functions.copy()\n        varlist = {}\n\n        comparer_params_evals = []\n        student_evals = []\n\n        # Create a list of instructor and sibling variables to remove from student evaluation\n        sibling_vars = [key for key in sibling_formulas]\n        var_blacklist = []\n        for var in self.config[\'instructor_vars\']:\n            if var in var_samples[0]:\n                var_blacklist.append(var)\n        var_blacklist += sibling_vars\n\n        for i in range(self.config[\'samples\']):\n            # Update the functions and variables listings with this sample\n            funclist.update(func_samples[i])\n            varlist.update(var_samples[i])\n\n            def scoped_eval(expression,\n                            variables=varlist,\n                            functions=funclist,\n                            suffixes=self.suffixes,\n                            max_array_dim=self.config[\'max_array_dim\']):\n                return evaluator(expression, variables, functions, suffixes, max_array_dim,\n                                 allow_inf=self.config[\'allow_inf\'])\n\n            # Compute expressions\n            comparer_params_eval = self.eval_and_validate_comparer_params(scoped_eval, comparer_params)\n            comparer_params_evals.append(comparer_params_eval)\n\n            # Before performing student evaluation, scrub the sibling and instructor\n            # variables so that students can\'t use them\n            for key in var_blacklist:\n                del varlist[key]\n\n            student_eval, meta = scoped_eval(student_input)\n            student_evals.append(student_eval)\n\n            if self.config[\'debug\']:\n                # Put the siblings and instructor variables back in for the debug output\n                varlist.update(var_samples[i])\n                self.log_eval_info(i, varlist, funclist,\n                                   comparer_params_eval=comparer_params_eval,\n                                   student_eval=student_eval)\n\n        return comparer_params_evals, student_evals, meta.functions_used\n\n    def raw_check(self, answer, student_input, **kwargs):\n        """Perform the numerical check of student_input vs answer"""\n\n        # Extract sibling formulas to allow for sampling\n        siblings = kwargs.get(\'siblings\', None)\n        # Find sibling variables used in comparer parameters\n        comparer_params = answer[\'expect\'][\'comparer_params\']\n        required_siblings = self.get_used_vars(comparer_params)\n        # Add in any sibling variables used in DependentSamplers\n        samplers = [self.config[\'sample_from\'][x]\n                    for x in self.config[\'sample_from\']\n                    if isinstance(self.config[\'sample_from\'][x], DependentSampler)]\n        sampler_vars = sum((x.config[\'depends\'] for x in samplers), [])\n        required_siblings = list(set(required_siblings).union(set(sampler_vars)))\n        # required_siblings might include some extra variable names, but no matter\n        sibling_formulas = self.get_sibling_formulas(siblings, required_siblings)\n\n        # Generate samples, using student input, sibling formulas and any comparer\n        # parameters (including answers) as the list of expressions to check\n        var_samples, func_samples = self.gen_var_and_func_samples(student_input,\n                                                                  sibling_formulas,\n                                                                  comparer_params)\n\n        (comparer_params_evals,\n         student_evals,\n         functions_used) = self.gen_evaluations(comparer_params, student_input,\n                                                sibling_formulas, var_samples, func_samples)\n\n', '    def get_sampler_dependencies(self):\n        """\n        Returns the set of names that the DependentSamplers in sample_from depend on.\n        These can include sibling variables.\n        """\n        samplers = [sampler for sampler in self.config[\'sample_from\'].values()\n                    if isinstance(sampler, DependentSampler)]\n        return set().union(*[sampler.config[\'depends\'] for sampler in samplers])\n\n    def get_hidden_vars(self, sample, sibling_vars):\n        """\n        Returns the list of names in a sample that students may not use: instructor\n        variables and sibling variables. These are scrubbed from the scope before\n        the student\'s input is evaluated.\n\n        Arguments:\n            sample (dict): a variable sample, as produced by gen_var_and_func_samples\n            sibling_vars: the names of the sibling variables that may have been\n                sampled. Names that aren\'t in the sample are ignored, as is the\n                case for instructor_vars (which is not validated either).\n        """\n        candidates = self.config[\'instructor_vars\'] + sorted(sibling_vars)\n        return [var for var in candidates if var in sample]\n\n    def gen_evaluations(self, comparer_params, student_input, hidden_vars,\n                        var_samples, func_samples):\n        """\n        Evaluate the comparer parameters and student inputs for the given samples.\n        The names in hidden_vars are available to the comparer parameters, but not\n        to the student input.\n\n        Returns:\n            A tuple (list, list, set). The first two lists are comparer_params_evals\n            and student_evals. These have length equal to number of samples specified\n            in config. The set is a record of mathematical functions used in the\n            student\'s input.\n        """\n        funclist = self.functions.copy()\n        varlist = {}\n\n        comparer_params_evals = []\n        student_evals = []\n\n        for i in range(self.config[\'samples\']):\n            # Update the functions and variables listings with this sample\n            funclist.update(func_samples[i])\n            varlist.update(var_samples[i])\n\n            def scoped_eval(expression,\n                            variables=varlist,\n                            functions=funclist,\n                            suffixes=self.suffixes,\n                            max_array_dim=self.config[\'max_array_dim\']):\n                return evaluator(expression, variables, functions, suffixes, max_array_dim,\n                                 allow_inf=self.config[\'allow_inf\'])\n\n            # Compute expressions\n            comparer_params_eval = self.eval_and_validate_comparer_params(scoped_eval, comparer_params)\n            comparer_params_evals.append(comparer_params_eval)\n\n            # Before performing student evaluation, scrub the sibling and instructor\n            # variables so that students can\'t use them\n            for key in hidden_vars:\n                del varlist[key]\n\n            student_eval, meta = scoped_eval(student_input)\n            student_evals.append(student_eval)\n\n            if self.config[\'debug\']:\n                # Put the siblings and instructor variables back in for the debug output\n                varlist.update(var_samples[i])\n                self.log_eval_info(i, varlist, funclist,\n                                   comparer_params_eval=comparer_params_eval,\n                                   student_eval=student_eval)\n\n        return comparer_params_evals, student_evals, meta.functions_used\n\n    def raw_check(self, answer, student_input, **kwargs):\n        """Perform the numerical check of student_input vs answer"""\n\n        # Extract sibling formulas to allow for sampling\n        siblings = kwargs.get(\'siblings\', None)\n        # Find sibling variables used in comparer parameters\n        comparer_params = answer[\'expect\'][\'comparer_params\']\n        param_siblings = self.get_used_vars(comparer_params)\n        # Add in any sibling variables used in DependentSamplers\n        required_siblings = param_siblings.union(self.get_sampler_dependencies())\n        # Both sets might include some extra variable names, but no matter\n        sibling_formulas = self.get_sibling_formulas(siblings, required_siblings)\n\n        # Generate samples, using student input, sibling formulas and any comparer\n        # parameters (including answers) as the list of expressions to check\n        var_samples, func_samples = self.gen_var_and_func_samples(student_input,\n                                                                  sibling_formulas,\n                                                                  comparer_params)\n\n        # Instructor and sibling variables are only for the comparer parameters\n        sibling_vars = [var for var in required_siblings if var in sibling_formulas]\n        hidden_vars = self.get_hidden_vars(var_samples[0], sibling_vars)\n\n        (comparer_params_evals,\n         student_evals,\n         functions_used) = self.gen_evaluations(comparer_params, student_input,\n                                                hidden_vars, var_samples, func_samples)\n\n'),
     Benign('check-scope-keywords', EXPR, "        self.check_scope(variables, functions, suffixes)\n\n        # metadata_dict",
            "        self.check_scope(functions=functions, variables=variables, suffixes=suffixes)\n\n        # metadata_dict"),
 ]
